@@ -1664,8 +1664,9 @@ def HInv (h : Heap ℝ) : Prop := Sep h ∧ ∀ r o, h.get r = some o → OK o
 /-- the calls the history theorems quantify over.  Constructors are called with arguments inside
 the property's quantifier.  Setters: arguments inside the property's quantifier (positive
 probability vectors / strictly decreasing ordered values summing to one, parameters in the open
-interval), OR — on an object built with the strict constraint — ANY argument (`setFrequencies` of
-an `OrderedSimplex` excepted).  Copies: any.  The assignment through a base-class reference is
+interval), OR — on an object built with the strict constraint — ANY values (`setFrequencies`: a
+vector of at least `dim` entries on a plain `Simplex`; on an `OrderedSimplex` only values inside the
+quantifier, or a non-empty vector of another size, which is rejected).  Copies: any.  The assignment through a base-class reference is
 excluded (it leaves `vValues_` behind: `baseAssign_breaks_values`). -/
 def Adm (h : Heap ℝ) : HOp ℝ → Prop
   | .newVec _ false m _ p => ValidMethod m ∧ ValidProbs p
